@@ -1046,7 +1046,7 @@ func (fr *frame) callBuiltin(caller *frame, callpos token.Pos, fn *ssa.Builtin, 
 		if n == 0 {
 			return ""
 		}
-		sl := in.sliceFromElemPtr(p, int(n))
+		sl := in.sliceFromElemPtr(fr, p, int(n))
 		out := make([]value, n)
 		copy(out, sl)
 		return mkString(out)
@@ -1071,21 +1071,25 @@ func (fr *frame) callBuiltin(caller *frame, callpos token.Pos, fn *ssa.Builtin, 
 		if p == nil {
 			return []value(nil)
 		}
-		return in.sliceFromElemPtr(p, int(n))
+		return in.sliceFromElemPtr(fr, p, int(n))
 	}
 
 	panic("unknown built-in: " + fn.Name())
 }
 
 // sliceFromElemPtr recovers the slice starting at element pointer p (registered by SliceData/StringData).
-func (in *interpreter) sliceFromElemPtr(p *value, n int) []value {
+func (in *interpreter) sliceFromElemPtr(fr *frame, p *value, n int) []value {
 	if s, ok := in.elemOwner[p]; ok {
 		if n > len(s) {
-			panic(engineError{"unsafe.Slice/String beyond the recorded backing array"})
+			panic(engineError{"unsafe.Slice/String beyond the recorded backing array in " + fr.fn.String()})
 		}
 		return s[:n:n]
 	}
-	panic(engineError{"unsafe.Slice/String on an unknown element pointer"})
+	if n == 1 {
+		// &x of a single cell: a one-element view
+		return []value{*p}
+	}
+	panic(engineError{"unsafe.Slice/String on an unknown element pointer in " + fr.fn.String() + callerChain(fr.caller)})
 }
 
 type stringIter struct {
